@@ -18,6 +18,13 @@ CHECKS = {
  "C15": dict(tech="TLC model checking of the semantic-token codec in Lexer.tla; every class-string document replayed through `ironplcc lsp --stdio` inside edit histories and decoded against the specification's highlighted lexemes and class table",
              text="Exhaustive within bounds at the lexical level: for every class string of the Lexer.tla configurations the server's response is decoded under the relative encoding and must be strictly increasing and equal (line, column, length, legend class) to the highlighted lexemes computed by the specification; invalid text must give a null result.",
              ref="DESIGN.md 3.1, 5/C15"),
+ "C13": dict(tech="TLC model checking of Cli.tla (ExitOkDiagAgree, EchoTokenizeExit, DependsOnlyOnDenotation); every enumerated invocation run as a real ironplcc process and compared; relational comparison of invocations with equal denotation",
+             text="Exhaustive within bounds: every argument sequence up to length 2 (quick) / 3 (thorough) over 7 files of all classes, 6 directories (incl. empty, with unreadable entry) and a missing path, for check / echo / tokenize, is executed; exit status, OK line and the set of (code, file) must equal the observation computed by the specification; directory vs file list, argument order and repetition are compared run against run.",
+             ref="DESIGN.md 3.7, 5/C13"),
+ "C14": dict(tech="TLC model checking of Cli.tla ReadDecode/EncodingTransparent over all encoding assignments; each replayed on a disk written in those encodings; exhaustive byte sweep in four lexical contexts; random binary files",
+             text="Exhaustive within bounds: all 125 assignments of {UTF-8, UTF-8+BOM, UTF-16LE/BE+BOM, Windows-1252} to three files carrying non-ASCII text before a planted fault; verdict, codes and line:col must equal the specification's (encoding-free) observation and each other. Every byte value 0x00-0xFF in a comment, a string, between tokens and inside an identifier, plus random binary files: no crash, contract holds, positions inside the decoded text, neutral characters keep the verdict.",
+             ref="DESIGN.md 3.7, 5/C14",
+             note="Encoders are Python codecs (trusted)."),
 }
 NA = {
 }
